@@ -56,7 +56,7 @@ MC_HEAP = [_mc("MCHeap", "MCHeap_" + c, "heap array model, 6 items, comparator %
 MC_ITER = [_mc("RBTIter", "MCRBTIter", "red-black iterator over all 6-key trees: CursorInv (refines AbsCursor incl. NextTo/PrevTo)", cfg_thorough="MCRBTIter_thorough.cfg"),
            _mc("BTIter", "MCBTIter3", "B-tree iterator, order 3, 7 keys: CursorInv", cfg_thorough="MCBTIter3_thorough.cfg"), _mc("BTIter", "MCBTIter4", "B-tree iterator, order 4, 7 keys: CursorInv"),
            _mc("IdxIter", "MCIdxIter", "index iterator over all sequences of length <= 4: CursorInv with NextTo/PrevTo", cfg_thorough="MCIdxIter_thorough.cfg"),
-           _mc("DLLIter", "MCDLLIter", "doubly linked list iterator (index + element pointer, re-anchoring on first/last) over all cell-level lists of length <= 3: CursorInv, NoIterPanic", cfg_thorough="MCDLLIter_thorough.cfg"),
+           _mc("DLLIter", "MCDLLIter", "doubly linked list iterator (index + element pointer, re-anchoring on first/last and - fix F10 - wherever a followed link is nil) over all cell-level lists of length <= 3, with every list operation allowed while the iterator is kept (Mutate / stale): CursorInv, NoIterPanic, NoValuePanic", cfg_thorough="MCDLLIter_thorough.cfg"),
            _mc("TreeSetIter", "MCTreeSetIter", "TreeSet iterator (index alongside the red-black iterator), 5 keys: InStep"),
            _mc("AVLIter", "MCAVLIter", "AVL iterator (Node.Next/Prev = walk1) over all 6-key trees: CursorInv", cfg_thorough="MCAVLIter_thorough.cfg")]
 MC_JSON = [_mc("MCJSON", "MCJSON_" + d, "abstract loads, discipline %s: Sound, NoSurvivor, RoundTrip" % d)
@@ -134,7 +134,7 @@ PLAN = {
                         dict(job="cur", spec="TraceCursor"), dict(job="enum", spec="TraceEnum"),
                         dict(job="json", spec="TraceJSON", together=True), dict(job="alias", spec="TraceAlias", together=True),
                         dict(job="exo", spec="TraceExo", together=True)],
-                mc=[MC_SEQ[0], MC_SEQ[2]], trusted=["fd-level capture of stdout/stderr (dup2), recover(), watchdog timer in the harness"]),
+                mc=[MC_SEQ[0], MC_SEQ[2], MC_ITER[4]], trusted=["fd-level capture of stdout/stderr (dup2), recover(), watchdog timer in the harness"]),
     "C18": dict(level="exploration", design="6 C18", race=True,
                 traces=[dict(job="rd", spec="TraceReaders", race=True),
                         dict(job="seq", spec="TraceSeq"), dict(job="que", spec="TraceQue"), dict(job="heap", spec="TraceHeap"),
